@@ -72,6 +72,16 @@ impl Default for PublisherQos {
     }
 }
 
+impl PublisherQos {
+    pub(crate) fn check_immutability(&self, other: &Self) -> DdsResult<()> {
+        if self.presentation != other.presentation {
+            Err(DdsError::ImmutablePolicy)
+        } else {
+            Ok(())
+        }
+    }
+}
+
 /// QoS policies applicable to the [`DataWriter`](crate::publication::data_writer::DataWriter)
 #[derive(Debug, PartialEq, Eq, Clone)]
 pub struct DataWriterQos {
@@ -177,6 +187,7 @@ impl DataWriterQos {
             || self.history != other.history
             || self.resource_limits != other.resource_limits
             || self.ownership != other.ownership
+            || self.representation != other.representation
         {
             Err(DdsError::ImmutablePolicy)
         } else {
@@ -326,6 +337,7 @@ impl DataReaderQos {
             || self.history != other.history
             || self.resource_limits != other.resource_limits
             || self.ownership != other.ownership
+            || self.representation != other.representation
         {
             Err(DdsError::ImmutablePolicy)
         } else {
